@@ -9,7 +9,7 @@
     Part 3: the instantiation used to execute the model on cases: signature
     verdicts are looked up in a table supplied by the runner. *)
 From Coq Require Import List NArith ZArith Bool.
-From Scion Require Import Lib.Check Lib.Bytes Lib.PBWire.
+From Scion Require Import Lib.Check Lib.Bytes Lib.PBWire Lib.HexLit.  (* HexLit: literals of the generated case files *)
 Import ListNotations.
 Local Open Scope N_scope.
 
